@@ -187,7 +187,10 @@ def _rule_objects():
     class Zt:  # Z -> T, T, T, T
         def predicate(self, op): return op.gate.name == "Z"
         def production(self, op): return tuple(C.T(*op.qubit_indices) for _ in range(4))
-    return {"A": A(), "B": B(), "H": Hr(), "Z": Zt(), "U3": U3GateToRotation()}
+    class Split:  # RZ(a) with |a| > 1 -> RZ(a/2) RZ(a/2): its own output may match it again - a rule is applied ONCE per position in the list, not to a fixed point
+        def predicate(self, op): return op.gate.name == "RZ" and abs(float(op.gate.params[0])) > 1
+        def production(self, op): return [C.RZ(float(op.gate.params[0]) / 2)(*op.qubit_indices)] * 2
+    return {"A": A(), "B": B(), "H": Hr(), "Z": Zt(), "U3": U3GateToRotation(), "S": Split()}
 
 
 RULE_CIRCUITS = [
@@ -197,6 +200,10 @@ RULE_CIRCUITS = [
     {"ops": [{"gate": G("T"), "q": [0]}, {"gate": G("U3", 0.3, 0.4, -0.4), "q": [1]}, {"gate": G("X"), "q": [1]}, {"gate": G("Z"), "q": [0]}], "n": 2},
     {"ops": [{"gate": G("T"), "q": [1]}, {"gate": G("CNOT"), "q": [0, 1]}], "n": 4},                             # nothing matches, idle qubits 2, 3
     {"ops": [], "n": 2},
+    {"ops": [{"gate": G("RZ", 4.4), "q": [0]}, {"gate": G("X"), "q": [1]}, {"gate": G("RZ", 0.5), "q": [1]}], "n": 2},
+    # different gates under the same wrapper kind with equal parameters on the same qubits (a wrapper's name does not identify the gate)
+    {"ops": [{"gate": W("controlled", G("RZ", 0.7), k=1), "q": [0, 1]}, {"gate": W("controlled", G("RY", 0.7), k=1), "q": [0, 1]}, {"gate": W("controlled", G("X"), k=1), "q": [1, 0]},
+             {"gate": W("controlled", G("Z"), k=1), "q": [1, 0]}, {"gate": W("dagger", G("T")), "q": [0]}, {"gate": W("dagger", G("S")), "q": [0]}], "n": 2},
 ]
 
 
@@ -242,7 +249,43 @@ def rule_lists_case(case):
     return {"ok": True, "nt": len(case["rules"]) >= 2, "ops": 1, "out": entry}
 
 
-FUNCS = {"rule_lists": rule_lists_case, "special_angles": grid_case, "grid": grid_case, "circuits": circuit_case, "circuits_idle": circuit_case, "rules": rules_case}
+def protocol_case(case):
+    """{'order': how predicate and production calls are interleaved}: a rule is a value: production(op) decomposes THE operation it is given, however many
+    predicate / production calls on other operations happened before on the same rule object"""
+    from orquestra.quantum import circuits as C
+    from orquestra.quantum.decompositions import U3GateToRotation
+    ops = [C.U3(0.3, 0.4, -0.4)(2), C.U3(0.5, 0.1, -0.1).controlled(1)(0, 1), C.T(0), C.U3(0.7, 0.2, -0.2).controlled(2)(2, 0, 1), C.U3(0.9, -0.3, 0.3)(1), C.U3(1.1, 0.6, -0.6).controlled(1)(2, 0)]
+    n = 3
+    rule = U3GateToRotation()
+    order = case["order"]
+    if order == "filter-then-produce":
+        matched = [o for o in ops if rule.predicate(o)]
+        prods = [list(rule.production(o)) for o in matched]
+    elif order == "reverse-produce":
+        matched = [o for o in ops if rule.predicate(o)]
+        prods = [list(rule.production(o)) for o in reversed(matched)][::-1]
+    elif order == "fresh-rule-produce":
+        matched = [o for o in ops if U3GateToRotation().predicate(o)]
+        prods = [list(U3GateToRotation().production(o)) for o in matched]
+    else:  # interleaved with predicates on the OTHER operations in between
+        matched, prods = [], []
+        for i, o in enumerate(ops):
+            if rule.predicate(o):
+                for other in ops[i + 1:] + ops[:i]:
+                    rule.predicate(other)
+                matched.append(o)
+                prods.append(list(rule.production(o)))
+    if len(matched) != 5:
+        return {"ok": False, "msg": "predicate matched %d of the 5 U3-kind operations" % len(matched), "sig": "protocol:predicate"}
+    for o, pr in zip(matched, prods):
+        U = num(C.Circuit([o], n_qubits=n).to_unitary())
+        V = num(C.Circuit(pr, n_qubits=n).to_unitary())
+        if not L.is_global_phase_of_identity(U @ V.conj().T, 1e-8):
+            return {"ok": False, "msg": "production(%s) called %s does not act like the operation it was given: %s" % (o, order, [str(x) for x in pr]), "sig": "protocol:production"}
+    return {"ok": True, "nt": True, "ops": 5, "out": order}
+
+
+FUNCS = {"protocol": protocol_case, "rule_lists": rule_lists_case, "special_angles": grid_case, "grid": grid_case, "circuits": circuit_case, "circuits_idle": circuit_case, "rules": rules_case}
 
 
 def partner_ops(n):
@@ -295,13 +338,15 @@ def run(run):
     cc.append({"ops": [{"gate": W("dagger", G("U3", 0.3, 0.4, 0.5)), "q": [0]}, {"gate": W("power", G("U3", 0.3, 0.4, 0.5), e=2), "q": [1]}], "n": 2})
     secs.append(Section("circuits", cc, circuit_case, horizon=900, desc="every placement x angle triples; length-2 circuits with unmatched partner operations in both orders"))
     secs.append(Section("rules", [{"kind": k} for k in ("empty", "AB", "BA", "U3U3", "A,U3,B", "ops")], rules_case, desc="empty rule list, rule order, idempotence"))
-    names = ["A", "B", "H", "Z", "U3"]
-    rl = [[]] + [list(p) for k in (1, 2, 3) for p in itertools.permutations(names, k)]
+    names = ["A", "B", "H", "Z", "U3", "S"]
+    rl = [[]] + [list(p) for k in (1, 2, 3) for p in itertools.permutations(names, k)] + [["S", "S"], ["S", "U3", "S"], ["A", "A"], ["U3", "U3"]]
     if thorough:
         rl += [list(p) for p in itertools.permutations(names, 4)] + [[a, a] for a in names] + [[a, b, a] for a in names for b in names if a != b]
     rc = [{"circ": ci, "rules": r, "entry": e} for ci in range(len(RULE_CIRCUITS)) for r in rl for e in ("circuit", "list", "tuple", "iter", "gen")]
-    secs.append(Section("rule_lists", rc, rule_lists_case, horizon=300, desc="every ordered list of <= 3 distinct rules out of 5 (X->Y, Y->ZZ, H->U3, Z->TTTT, U3->rotations) x 6 circuits (idle qubits, "
+    secs.append(Section("rule_lists", rc, rule_lists_case, horizon=300, desc="every ordered list of <= 3 distinct rules out of 6 (X->Y, Y->ZZ, H->U3, Z->TTTT, U3->rotations, RZ(a)->RZ(a/2)RZ(a/2)) x 8 circuits (idle qubits, "
                         "empty) x 5 ways of handing the operations over (circuit, list, tuple, one-shot iterator, generator)"))
+    secs.append(Section("protocol", [{"order": o} for o in ("filter-then-produce", "reverse-produce", "fresh-rule-produce", "interleaved")], protocol_case,
+                        desc="predicate / production of one U3 rule object called in other orders than decompose_operations does, on operations with 0, 1, 2 controls (phi = -lambda)"))
     # circuits with idle qubits (declared width larger than the highest used index + 1)
     cc2 = [{"ops": [{"gate": u3_gate(kind, tri[0]), "q": list(range(kind + 1))[::-1]}], "n": kind + 1 + extra} for kind in (0, 1) for extra in (1, 2)]
     cc2 += [{"ops": [{"gate": G("T"), "q": [0]}], "n": 3}, {"ops": [], "n": 2}]
